@@ -124,6 +124,7 @@ def run(b, ps, tier, seed):
     violations += v3
     nperm = nann = 0
     nondet = 0
+    nf20, f20ex = 0, ""
     if impl:
         # determinism: the same texts once more
         again = S.run_tool(b.probe, "wf", cases[:400], timeout=600)
@@ -135,6 +136,10 @@ def run(b, ps, tier, seed):
                                           {"property": PROP, "kind": "nondeterministic", "suite": "wf", "input_text": t0,
                                            "input_hex": t0.encode("latin1", "replace").hex(), "first": impl.get(i0, "")[:400], "second": again.get(i0, "")[:400]}))
         nperm, nann, bad = metamorphic(b, items, impl, seed)
+        if TS.F20 in TS.known_ids(PROP):
+            f20 = [x for x in bad if x[0] == "explicit-annotation" and TS.f20_shaped(x[3], x[5])]
+            bad = [x for x in bad if x not in f20]
+            nf20, f20ex = len(f20), (G.render(f20[0][3]) if f20 else "")
         for what, i, k, e, e2, a, p in bad[:4]:
             t1, t2 = G.render(e), G.render(e2)
             violations.append(C.Violation(
@@ -142,8 +147,10 @@ def run(b, ps, tier, seed):
                 {"property": PROP, "kind": "metamorphic:" + what, "suite": "wf", "input_text": t1, "input_hex": t1.encode("latin1", "replace").hex(),
                  "variant_text": t2, "variant_hex": t2.encode("latin1", "replace").hex(), "original": a[:500], "variant": p[:500],
                  "replay_cmd": "bin/check C16 --replay <this file>"}))
-    if kn + kn2:
-        known.append(TS.known_line(PROP, kn + kn2, kex or kex2))
+    if nf20 and isinstance(kn, dict):
+        kn = dict(kn)
+        kn[TS.F20] = (kn.get(TS.F20, (0, ""))[0] + nf20, f20ex)
+    known, nknown, known_seen = TS.known_lines(PROP, kn, kn2)
     if impl and cnt.get("parse-err", 0) > 0:
         violations.append(C.Violation("generated type environments no longer parse (%d texts)" % cnt.get("parse-err", 0),
                                       {"property": PROP, "kind": "unproven", "no_longer_checks": [{"what": "generator typegen.py vs the grammar", "detail": "PARSE-ERR on generated text"}]},
@@ -165,7 +172,8 @@ def run(b, ps, tier, seed):
         "metamorphic_explicit_annotation_cases": nann,
         "rerun_for_determinism": 400 if impl else 0,
         "corpus_cases": ncorpus,
-        "known_finding_cases": kn + kn2,
+        "known_finding_cases": nknown,
+        "known_findings_seen": known_seen,
     }
     return {"violations": violations, "known": known, "coverage": cov,
             "assumptions": [
